@@ -1,1 +1,227 @@
-"""rules for c06 (under construction)"""
+"""C06 - accepted steps tile [t0, Tend] and chain their values (structural clauses)."""
+
+import ast
+import re
+
+from ..cfg import FuncCFG, walk_no_nested
+from ..model import AnalysisError
+from ..norm import Normalizer, bool_nf
+from ..runner import rule
+from .. import controllers as ct
+from .. import facts
+
+SERIAL = (ct.NONMPI, ct.PARADIAG)
+
+
+def _assigns(fn, name):
+    return [s for s in walk_no_nested(fn) if isinstance(s, ast.Assign) and any(ast.unparse(t) == name for t in s.targets)]
+
+
+def _calls(fn, attr):
+    return [c for c in ast.walk(fn) if isinstance(c, ast.Call) and isinstance(c.func, ast.Attribute) and c.func.attr == attr]
+
+
+@rule('C06', 'C06.R1', 'value chain: the value carried to the next block / returned is uend of the last step (or u[0] of the first restarted step); init_step copies it', floor=12)
+def r1(ctx, R):
+    repo = ctx.repo
+    for rel, cn, _ in SERIAL:
+        fn = repo.func(rel, f'{cn}.run')
+        w = f'{rel}:{cn}.run'
+        R.fn(w)
+        cfg = FuncCFG(fn)
+        ret = [s for s in walk_no_nested(fn) if isinstance(s, ast.Return)]
+        if len(ret) != 1 or not isinstance(ret[0].value, ast.Tuple) or not isinstance(ret[0].value.elts[0], ast.Name):
+            raise AnalysisError(f'{w}: `return <name>, stats` not found')
+        var = ret[0].value.elts[0].id
+        u0p = fn.args.args[1].arg
+        defs = _assigns(fn, var)
+        got = sorted((ast.unparse(s.value), tuple(g for g in facts.guard_strings(cfg, s) if 'restarts' in g)) for s in defs)
+        want = sorted([
+            ('None', ()),
+            ('self.MS[restart_at].levels[0].u[0]', ('True in restarts',)),
+            ('self.MS[active_slots[-1]].levels[0].uend', ('not (True in restarts)',)),
+        ])
+        R.check(got == want, f'{cn}.run :: definitions of the carried value `{var}`', w, want, got)
+        rb = [c for c in _calls(fn, 'restart_block')]
+        args = sorted(ast.unparse(c.args[2]) if len(c.args) > 2 else '?' for c in rb)
+        R.check(args == sorted([u0p, var]), f'{cn}.run :: restart_block receives the caller\'s u0 first, then the carried value', w, [u0p, var], args)
+        # in-loop call comes after both arms (the If dominates it)
+        inloop = [c for c in rb if len(c.args) > 2 and ast.unparse(c.args[2]) == var]
+        arms = [n for n, s in cfg.stmt_of.items() if isinstance(s, ast.If) and ast.unparse(s.test) == 'True in restarts']
+        call_nodes = [n for n, s in cfg.stmt_of.items() if isinstance(s, ast.Expr) and s.value in inloop]
+        ok = len(arms) == 1 and len(call_nodes) == 1 and cfg.dominates(arms[0], call_nodes[0])
+        R.check(ok, f'{cn}.run :: both arms (restart / advance) precede the next restart_block', w, 'if True in restarts: .. else: .. dominates restart_block(.., carried)', f'{len(arms)} branch(es), {len(call_nodes)} call(s)')
+        # restart_block hands its third parameter to init_step of every active step
+        rbf = repo.func(rel, f'{cn}.restart_block')
+        w2 = f'{rel}:{cn}.restart_block'
+        R.fn(w2)
+        p3 = rbf.args.args[3].arg
+        ini = _calls(rbf, 'init_step')
+        c2 = FuncCFG(rbf)
+        ok = len(ini) == 1 and [ast.unparse(a) for a in ini[0].args] == [p3] and not _assigns(rbf, p3)
+        if ok:
+            node = [n for n, s in c2.stmt_of.items() if isinstance(s, ast.Expr) and s.value is ini[0]][0]
+            lp = c2.loops_of[id(c2.stmt_of[node])]
+            ok = len(lp) == 1 and ast.unparse(lp[0].iter) == 'range(len(active_slots))' and not c2.guards[id(c2.stmt_of[node])]
+        R.check(ok, f'{cn}.restart_block :: init_step({p3}) for every active slot, unconditionally', w2, f'self.MS[p].init_step({p3}) in the loop over active_slots', [ast.unparse(c) for c in ini])
+    # Step.init_step stores a fresh copy
+    rel = 'pySDC/core/step.py'
+    fn = repo.func(rel, 'Step.init_step')
+    w = f'{rel}:Step.init_step'
+    R.fn(w)
+    N = Normalizer(fn)
+    st = [c for c in N.contribs if c.target == 'self.levels[0].u[0]']
+    p = fn.args.args[1].arg
+    ok = len(st) == 1 and st[0].op == '=' and st[0].rhs == f'self.levels[0].prob.dtype_u({p})' and not st[0].guards
+    R.check(ok, 'Step.init_step :: levels[0].u[0] = dtype_u(u0) (copy through the datatype, never the caller\'s object)', w, f'self.levels[0].u[0] = P.dtype_u({p})', [c.describe() for c in st])
+    # MPI sibling
+    rel, cn, _ = ct.MPI
+    fn = repo.func(rel, f'{cn}.run')
+    w = f'{rel}:{cn}.run'
+    R.fn(w)
+    cfg = FuncCFG(fn)
+    defs = _assigns(fn, 'uend')
+    got = sorted((ast.unparse(s.value), tuple(g for g in facts.guard_strings(cfg, s) if 'restarts' in g)) for s in defs)
+    want = sorted([('u0', ()), ('self.S.levels[0].u[0].bcast(root=restart_at, comm=comm_active)', ('True in restarts',)), ('self.S.levels[0].uend.bcast(root=comm_active.size - 1, comm=comm_active)', ('not (True in restarts)',))])
+    R.check(got == want, 'controller_MPI.run :: definitions of the carried value `uend`', w, want, got)
+    rb = _calls(fn, 'restart_block')
+    args = sorted(ast.unparse(c.args[2]) for c in rb if len(c.args) > 2)
+    R.check(args == ['u0', 'uend'], 'controller_MPI.run :: restart_block receives u0 first, then the broadcast value', w, ['u0', 'uend'], args)
+    rbf = repo.func(rel, f'{cn}.restart_block')
+    ini = _calls(rbf, 'init_step')
+    R.check(len(ini) == 1 and [ast.unparse(a) for a in ini[0].args] == ['u0'], 'controller_MPI.restart_block :: init_step(u0)', f'{rel}:{cn}.restart_block', 'self.S.init_step(u0)', [ast.unparse(c) for c in ini])
+
+
+@rule('C06', 'C06.R2', 'time chain: block start = restarted slot time | last time + its dt; later slots = predecessor + predecessor dt; level times from time[p]', floor=10)
+def r2(ctx, R):
+    repo = ctx.repo
+    for rel, cn, _ in SERIAL:
+        fn = repo.func(rel, f'{cn}.run')
+        w = f'{rel}:{cn}.run'
+        R.fn(w)
+        cfg = FuncCFG(fn)
+        init = _assigns(fn, 'time')
+        t0 = fn.args.args[2].arg
+        ok = len(init) == 1 and ast.unparse(init[0].value) == f'[{t0} + sum((self.MS[j].dt for j in range(p))) for p in slots]'
+        R.check(ok, f'{cn}.run :: initial times are t0 + sum of the preceding step sizes', w, f'[{t0} + sum(self.MS[j].dt for j in range(p)) for p in slots]', [ast.unparse(s.value) for s in init])
+        first = [s for s in walk_no_nested(fn) if isinstance(s, ast.Assign) and ast.unparse(s.targets[0]) == 'time[active_slots[0]]']
+        got = sorted((ast.unparse(s.value), facts.guard_strings(cfg, s)[-1]) for s in first)
+        want = sorted([('time[restart_at]', 'True in restarts'), ('time[active_slots[-1]] + self.MS[active_slots[-1]].dt', 'not (True in restarts)')])
+        R.check(got == want, f'{cn}.run :: start time of the next block', w, want, got)
+        later = [s for s in walk_no_nested(fn) if isinstance(s, ast.Assign) and ast.unparse(s.targets[0]) == 'time[active_slots[i]]']
+        ok = len(later) == 1 and ast.unparse(later[0].value) == 'time[active_slots[i] - 1] + self.MS[active_slots[i] - 1].dt'
+        if ok:
+            lp = cfg.loops_of[id(later[0])]
+            ok = len(lp) == 2 and ast.unparse(lp[-1].iter) == 'range(1, len(active_slots))'
+            # it must follow the prepare_next_block calls (which may change dt) and the first-slot assignment
+            pnb = [n for n in cfg.stmt_of if any(isinstance(c.func, ast.Attribute) and c.func.attr == 'prepare_next_block' for c in cfg.calls_at(n))]
+            ok = ok and len(pnb) >= 1 and all(cfg.dominates(_hdr(cfg, n), cfg.node_of[id(lp[-1])]) for n in pnb)
+        R.check(ok, f'{cn}.run :: later slots start where the predecessor ends, using the step sizes fixed for the next block', w, 'time[s_i] = time[s_i - 1] + MS[s_i - 1].dt for i >= 1, after prepare_next_block', [ast.unparse(s) for s in later])
+        # other writers of time[...]
+        others = [ast.unparse(s.targets[0]) for s in walk_no_nested(fn) if isinstance(s, ast.Assign) and ast.unparse(s.targets[0]).startswith('time[') and s not in first and s not in later]
+        R.check(not others, f'{cn}.run :: no other writer of the time table', w, [], others)
+        rbf = repo.func(rel, f'{cn}.restart_block')
+        N = Normalizer(rbf, inline_scalars=False)
+        tm = [c for c in N.contribs if c.target.endswith('.status.time')]
+        ok = len(tm) == 1 and tm[0].rhs == 'time[p]' and [l.it for l in tm[0].loops][:1] == ['active_slots']
+        R.check(ok, f'{cn}.restart_block :: every level of every active step gets time[p]', f'{rel}:{cn}.restart_block', 'lvl.status.time = time[p] for p in active_slots', [c.describe() for c in tm])
+    rel, cn, _ = ct.MPI
+    fn = repo.func(rel, f'{cn}.run')
+    w = f'{rel}:{cn}.run'
+    cfg = FuncCFG(fn)
+    td = sorted((ast.unparse(s.value), (facts.guard_strings(cfg, s) or [''])[-1]) for s in _assigns(fn, 'tend'))
+    want = sorted([('comm_active.bcast(self.S.time, root=restart_at)', 'True in restarts'), ('comm_active.bcast(self.S.time + self.S.dt, root=comm_active.size - 1)', 'not (True in restarts)')])
+    R.check(td == want, 'controller_MPI.run :: start time of the next block (restarted step time | last step end)', w, want, td)
+    tm = sorted(ast.unparse(s.value) for s in _assigns(fn, 'time'))
+    R.check(tm == sorted(['t0 + sum(all_dt[:self.comm.rank])', 'tend + sum(all_dt[:self.S.status.slot])']), 'controller_MPI.run :: rank time = block start + preceding step sizes', w, 'tend + sum(all_dt[:slot])', tm)
+
+
+def _hdr(cfg, n):
+    """outermost enclosing loop header of node n inside the main while loop (or n)"""
+    st = cfg.stmt_of[n]
+    lp = cfg.loops_of[id(st)]
+    if len(lp) >= 2:
+        return cfg.node_of[id(lp[1])]
+    return n
+
+
+_EPS = r'10 \* np\.finfo\(float\)\.eps'
+
+
+def _activity_tests(fn):
+    out = []
+    for x in walk_no_nested(fn):
+        if isinstance(x, ast.Compare) and 'finfo' in ast.unparse(x):
+            out.append(x)
+    return out
+
+
+@rule('C06', 'C06.R3', 'activity predicate agrees at every site: t < Tend - 10*eps; nothing to do raises; loop runs while any step is active', floor=12)
+def r3(ctx, R):
+    repo = ctx.repo
+    n_sites = 0
+    for rel, cn, _ in ct.ALL:
+        fn = repo.func(rel, f'{cn}.run')
+        w = f'{rel}:{cn}.run'
+        R.fn(w)
+        tend = fn.args.args[3].arg
+        for x in _activity_tests(fn):
+            s = bool_nf(x)
+            n_sites += 1
+            ok = re.fullmatch(rf'.+ < {tend} - {_EPS}', s) is not None or re.fullmatch(rf'{tend} - {_EPS} <= .+', s) is not None
+            R.check(ok, f'{cn}.run :: activity test `{ast.unparse(x)}`', w, f'<time> < {tend} - 10*eps (or its exact negation)', s)
+        cfg = FuncCFG(fn)
+        rs = [(n, s) for n, s in cfg.stmt_of.items() if isinstance(s, ast.Raise) and 'ControllerError' in ast.unparse(s)]
+        ok = any(re.search(r'not any\(active\)|not active', ' '.join(facts.guard_strings(cfg, s))) for n, s in rs)
+        R.check(ok, f'{cn}.run :: raises ControllerError when no step is active initially', w, 'raise under not any(active)', [facts.guard_strings(cfg, s) for n, s in rs])
+        wl = [s for s in walk_no_nested(fn) if isinstance(s, ast.While) and ast.unparse(s.test) in ('any(active)', 'active')]
+        R.check(len(wl) == 1, f'{cn}.run :: main loop runs while a step is active', w, 'while any(active)', [ast.unparse(s.test) for s in walk_no_nested(fn) if isinstance(s, ast.While)])
+    if n_sites < 7:
+        raise AnalysisError(f'C06.R3: only {n_sites} activity tests found, 8 confirmed by hand')
+
+
+@rule('C06', 'C06.R4', 'kept steps: post_step_processing runs for the steps before the first restarted one', floor=4)
+def r4(ctx, R):
+    repo = ctx.repo
+    for rel, cn, _ in SERIAL:
+        fn = repo.func(rel, f'{cn}.run')
+        w = f'{rel}:{cn}.run'
+        R.fn(w)
+        ra = _assigns(fn, 'restart_at')
+        ok = len(ra) == 1 and ast.unparse(ra[0].value) == 'np.where(restarts)[0][0] if True in restarts else len(MS_active)'
+        R.check(ok, f'{cn}.run :: restart_at is the FIRST step that asks for a restart', w, 'np.where(restarts)[0][0] if True in restarts else len(MS_active)', [ast.unparse(s.value) for s in ra])
+        cfg = FuncCFG(fn)
+        ps = [n for n in cfg.stmt_of if any(isinstance(c.func, ast.Attribute) and c.func.attr == 'post_step_processing' for c in cfg.calls_at(n))]
+        ok = len(ps) == 1
+        if ok:
+            lp = cfg.loops_of[id(cfg.stmt_of[ps[0]])]
+            ok = any(ast.unparse(l.iter) == 'MS_active[:restart_at]' for l in lp if isinstance(l, ast.For))
+        R.check(ok, f'{cn}.run :: post_step_processing for MS_active[:restart_at] only', w, 'for S in MS_active[:restart_at]', f'{len(ps)} call site(s)')
+    rel, cn, _ = ct.MPI
+    fn = repo.func(rel, f'{cn}.run')
+    cfg = FuncCFG(fn)
+    ps = [n for n in cfg.stmt_of if any(isinstance(c.func, ast.Attribute) and c.func.attr == 'post_step_processing' for c in cfg.calls_at(n))]
+    ok = len(ps) == 1 and 'not self.S.status.restart' in facts.guard_strings(cfg, cfg.stmt_of[ps[0]])
+    R.check(ok, 'controller_MPI.run :: post_step_processing only on ranks that do not restart', f'{rel}:{cn}.run', 'if not self.S.status.restart', f'{len(ps)} site(s)')
+
+
+@rule('C06', 'C06.R5', 'scale-unaware tolerance: an accumulated float time compared against Tend minus an ABSOLUTE multiple of eps', floor=7)
+def r5(ctx, R):
+    """contradiction pattern: the threshold does not scale with |t| / |Tend|, the accumulated error does"""
+    repo = ctx.repo
+    for rel, cn, _ in ct.ALL:
+        fn = repo.func(rel, f'{cn}.run')
+        w = f'{rel}:{cn}.run'
+        R.fn(w)
+        k = {}
+        for x in _activity_tests(fn):
+            src = ast.unparse(x)
+            thr = ast.unparse(x.comparators[0])
+            scaled = re.search(r'abs\(|max\(|np\.spacing|nextafter|isclose', thr) is not None
+            i = k.get(src, 0)
+            k[src] = i + 1
+            c = f'{cn}.run :: `{src}` #{i}'
+            if scaled:
+                R.ok(c, w, found='threshold scales with the magnitude of the operands')
+            else:
+                R.bad(c, w, 'a tolerance relative to |t| or |Tend| (or an integer step count)', f'absolute threshold {thr}')
